@@ -3,6 +3,7 @@
 package pocketpure
 
 import (
+	"fmt"
 	"crypto/sha256"
 	"encoding/binary"
 	"encoding/hex"
@@ -123,6 +124,30 @@ func (rs relaySet) proofs(n int) []pc.Proof {
 	out := make([]pc.Proof, n)
 	for i := range out {
 		out[i] = rs.relay(uint64(i))
+	}
+	return out
+}
+
+// challenge builds the i-th challenge-evidence leaf of the set: two agreeing (majority) responses and one deviating
+// (minority) response of three different servicers to the same relay.
+func (rs relaySet) challenge(i uint64) pc.ChallengeProofInvalidData {
+	resp := func(who uint64, payload string) pc.RelayResponse {
+		p := rs.relay(i)
+		p.ServicerPubKey = detHex(32, "challenge-servicer", rs.seed, who)
+		p.Signature = detHex(64, "challenge-proof-sig", rs.seed, i, who)
+		return pc.RelayResponse{Signature: detHex(64, "challenge-resp-sig", rs.seed, i, who), Response: payload, Proof: p}
+	}
+	return pc.ChallengeProofInvalidData{
+		MajorityResponses: []pc.RelayResponse{resp(1, fmt.Sprintf("majority-%d", i)), resp(2, fmt.Sprintf("majority-%d", i))},
+		MinorityResponse:  resp(3, fmt.Sprintf("minority-%d", i)),
+		ReporterAddress:   detBytes(20, "reporter", rs.seed),
+	}
+}
+
+func (rs relaySet) challengeProofs(n int) []pc.Proof {
+	out := make([]pc.Proof, n)
+	for i := range out {
+		out[i] = rs.challenge(uint64(i))
 	}
 	return out
 }
